@@ -2,6 +2,7 @@ package main
 
 import (
 	"bytes"
+	"sort"
 	"encoding/json"
 	"fmt"
 	"os"
@@ -12,9 +13,404 @@ import (
 	"time"
 )
 
-// tryReplay: rebuild the solver's counterexample as inputs of the real function and run it (go test -overlay).
+// ---- replay of solver counterexamples on the real code -----------------------------------------------
+// For obligations whose model translates faithfully into inputs of the real function, a test is generated from
+// the model, injected with `go test -overlay` (nothing is written to /repo) and its verdict attached:
+// REPLAY-CONFIRMED (the real code violates the clause on the model's input), REPLAY-NOT-REPRODUCED (the model lives
+// in an abstraction: uninterpreted hash, arbitrary peer, contract of a callee) or no replay template.
+
+var modelKV = regexp.MustCompile(`(?m)^(\S+) = (#x[0-9a-fA-F]+|#b[01]+|true|false)$`)
+
+func parseModel(model string) map[string]uint64 {
+	out := map[string]uint64{}
+	for _, m := range modelKV.FindAllStringSubmatch(model, -1) {
+		v := m[2]
+		var u uint64
+		switch {
+		case v == "true":
+			u = 1
+		case v == "false":
+			u = 0
+		case strings.HasPrefix(v, "#x"):
+			fmt.Sscanf(v[2:], "%x", &u)
+		case strings.HasPrefix(v, "#b"):
+			for _, c := range v[2:] {
+				u = u<<1 | uint64(c-'0')
+			}
+		}
+		out[m[1]] = u
+	}
+	return out
+}
+
+// modelBytes asks the solver for n bytes of array variable arr starting at index from, in the model of v's query.
+func modelBytes(v *Verdict, arr string, from uint64, n int) []byte {
+	if n <= 0 {
+		return nil
+	}
+	if n > 600 {
+		n = 600
+	}
+	var sb strings.Builder
+	sb.WriteString("(set-option :produce-models true)\n")
+	sb.WriteString(strings.Replace(v.Query, "(check-sat)", "(check-sat)\n", 1))
+	sb.WriteString("(get-value (")
+	for i := 0; i < n; i++ {
+		fmt.Fprintf(&sb, "(select %s #x%016x) ", smtName(arr), from+uint64(i))
+	}
+	sb.WriteString("))\n")
+	r := runSolvers(sb.String(), 30, false, "z3-new")
+	if r.Status != "sat" {
+		return nil
+	}
+	re := regexp.MustCompile(`\)\s+#x([0-9a-fA-F]{2})\)`)
+	ms := re.FindAllStringSubmatch(r.Output, -1)
+	if len(ms) < n {
+		return nil
+	}
+	out := make([]byte, n)
+	for i := 0; i < n; i++ {
+		var u uint64
+		fmt.Sscanf(ms[i][1], "%x", &u)
+		out[i] = byte(u)
+	}
+	return out
+}
+
+func findKey(m map[string]uint64, suffix string) (string, uint64, bool) {
+	var ks []string
+	for k := range m {
+		if strings.HasSuffix(k, suffix) {
+			ks = append(ks, k)
+		}
+	}
+	sort.Strings(ks)
+	if len(ks) == 0 {
+		return "", 0, false
+	}
+	return ks[0], m[ks[0]], true
+}
+
+func goBytes(b []byte) string {
+	var sb strings.Builder
+	sb.WriteString("[]byte{")
+	for i, x := range b {
+		if i > 0 {
+			sb.WriteString(",")
+		}
+		fmt.Fprintf(&sb, "0x%02x", x)
+	}
+	sb.WriteString("}")
+	return sb.String()
+}
+
+// runReplayTest injects test files into a package and returns the REPLAY lines of its output.
+func (c *checkCtx) runReplayTest(pkgRel string, files map[string]string, run string) string {
+	ov := map[string]map[string]string{"Replace": {}}
+	for name, text := range files {
+		src := filepath.Join(scratch(), "replay-"+name)
+		os.WriteFile(src, []byte(text), 0o644)
+		ov["Replace"][filepath.Join(repoDir, pkgRel, "zz_govc_replay_"+name)] = src
+	}
+	data, _ := json.Marshal(ov)
+	ovFile := filepath.Join(scratch(), "replay-overlay.json")
+	os.WriteFile(ovFile, data, 0o644)
+	pkg := "./" + pkgRel
+	if pkgRel == "." {
+		pkg = "."
+	}
+	cmd := exec.Command("go", "test", "-overlay", ovFile, "-vet=off", "-count=1", "-timeout", "60s", "-run", run, "-v", pkg)
+	cmd.Dir = repoDir
+	cmd.Env = goEnv()
+	var out bytes.Buffer
+	cmd.Stdout = &out
+	cmd.Stderr = &out
+	cmd.Run()
+	var keep []string
+	for _, l := range strings.Split(out.String(), "\n") {
+		if strings.Contains(l, "REPLAY") || strings.Contains(l, "panic:") {
+			keep = append(keep, strings.TrimSpace(l))
+		}
+	}
+	if len(keep) == 0 {
+		tail := out.String()
+		if len(tail) > 1500 {
+			tail = tail[len(tail)-1500:]
+		}
+		return "replay test produced no verdict:\n" + tail
+	}
+	return strings.Join(keep, "\n")
+}
+
 func (c *checkCtx) tryReplay(ns *NameSummary, v *Verdict, model, dir, safe string) string {
+	if v.Result.Status != "sat" {
+		return ""
+	}
+	if c.replays >= 6 {
+		return "replay skipped: replay budget of this run used up (6 replays)"
+	}
+	c.replays++
+	m := parseModel(model)
+	fn := ns.Func
+	oracle, _ := os.ReadFile(filepath.Join(verifDir, "replay", "oracle_frame.go.txt"))
+	switch {
+	case strings.Contains(fn, "govcEnumRT_") || strings.Contains(ns.Name, "govcEnumRT_"):
+		return c.replayEnum(ns, m)
+	case fn == "(*x25.X25).Write":
+		_, crc0, _ := findKey(m, ".crc!1")
+		_, n, _ := findKey(m, "p.len!1")
+		p := modelBytes(v, "p.arr!1", 0, int(n))
+		test := fmt.Sprintf(`package x25
+
+import ("fmt"; "testing")
+
+func rpStep(c uint16, b byte) uint16 { x := c ^ uint16(b); for i := 0; i < 8; i++ { if x&1 != 0 { x = (x >> 1) ^ 0x8408 } else { x >>= 1 } }; return x }
+
+func TestGovcReplay(t *testing.T) {
+	x := &X25{crc: 0x%x}
+	p := %s
+	want := x.crc
+	for _, b := range p { want = rpStep(want, b) }
+	x.Write(p)
+	if x.crc != want { fmt.Printf("REPLAY-CONFIRMED X25.Write crc0=%%#x p=%%x: got %%#x, CRC-16/MCRF4XX gives %%#x\\n", 0x%x, p, x.crc, want) } else { fmt.Println("REPLAY-NOT-REPRODUCED") }
+}
+`, crc0, goBytes(p), crc0)
+		return c.runReplayTest("pkg/x25", map[string]string{"test.go": test}, "TestGovcReplay")
+	case fn == "(frame.V2Frame).marshalTo" || fn == "(frame.V1Frame).marshalTo" || fn == "(frame.V2Frame).GenerateChecksum" || fn == "(frame.V1Frame).GenerateChecksum":
+		return c.replayFrameFields(ns, v, m, string(oracle))
+	case fn == "(*frame.V1Frame).unmarshal" || fn == "(*frame.V2Frame).unmarshal" || fn == "(*frame.Reader).Read" || fn == "frame.lemmaForwardRaw":
+		return c.replayStream(ns, v, m, string(oracle))
+	}
 	return ""
+}
+
+func (c *checkCtx) replayEnum(ns *NameSummary, m map[string]uint64) string {
+	// name: <pkgbase>.dialects/<pkg>.govcEnumRT_<T>#...
+	nm := ns.Name
+	i := strings.Index(nm, "govcEnumRT_")
+	if i < 0 {
+		return ""
+	}
+	typ := nm[i+len("govcEnumRT_"):]
+	if j := strings.Index(typ, "#"); j >= 0 {
+		typ = typ[:j]
+	}
+	pkg := strings.SplitN(nm, ".", 2)[0]
+	_, e, ok := findKey(m, "e!1")
+	if !ok {
+		return ""
+	}
+	test := fmt.Sprintf(`package %s
+
+import ("fmt"; "testing")
+
+func TestGovcReplay(t *testing.T) {
+	e := %s(0x%x)
+	b, _ := e.MarshalText()
+	var e2 %s
+	err := (&e2).UnmarshalText(b)
+	if err != nil || e2 != e { fmt.Printf("REPLAY-CONFIRMED %s(%%#x) -> %%q -> %%#x, err=%%v\\n", uint64(e), b, uint64(e2), err) } else { fmt.Println("REPLAY-NOT-REPRODUCED") }
+}
+`, pkg, typ, e, typ, typ)
+	return c.runReplayTest("pkg/dialects/"+pkg, map[string]string{"test.go": test}, "TestGovcReplay")
+}
+
+// replayFrameFields: frame header fields and payload from the model; compare marshalTo / GenerateChecksum with the mirror.
+func (c *checkCtx) replayFrameFields(ns *NameSummary, v *Verdict, m map[string]uint64, oracle string) string {
+	get := func(suffix string) uint64 { _, x, _ := findKey(m, suffix); return x }
+	isV2 := strings.Contains(ns.Func, "V2Frame")
+	raw := strings.Contains(ns.Func, "GenerateChecksum")
+	var payload []byte
+	var id uint64
+	if raw {
+		k, n, _ := findKey(m, "Payload.len!1")
+		arr := strings.Replace(strings.Replace(k, ".len!1", ".arr!1", 1), "_f.Message", "__f.Message", 1)
+		payload = modelBytes(v, arr, 0, int(n))
+		if payload == nil {
+			payload = make([]byte, n)
+		}
+		id = get(".ID!1")
+	} else {
+		n := get("msgEncoded.len!1")
+		payload = modelBytes(v, "msgEncoded.arr!1", 0, int(n))
+		if payload == nil {
+			payload = make([]byte, n)
+		}
+		id = get(".ID!1")
+	}
+	if len(payload) > 255 {
+		return "replay skipped: model payload longer than 255 bytes"
+	}
+	frameLit := ""
+	if isV2 {
+		frameLit = fmt.Sprintf("V2Frame{IncompatibilityFlag: 0x%x, CompatibilityFlag: 0x%x, SequenceNumber: 0x%x, SystemID: 0x%x, ComponentID: 0x%x, Message: &message.MessageRaw{ID: 0x%x, Payload: payload}, Checksum: 0x%x, SignatureLinkID: 0x%x, SignatureTimestamp: 0x%x, Signature: &V2Signature{1,2,3,4,5,6}}",
+			get("f.IncompatibilityFlag!1"), get("f.CompatibilityFlag!1"), get("f.SequenceNumber!1"), get("f.SystemID!1"), get("f.ComponentID!1"), id, get("f.Checksum!1"), get("f.SignatureLinkID!1"), get("f.SignatureTimestamp!1")&0xFFFFFFFFFFFF)
+	} else {
+		frameLit = fmt.Sprintf("V1Frame{SequenceNumber: 0x%x, SystemID: 0x%x, ComponentID: 0x%x, Message: &message.MessageRaw{ID: 0x%x, Payload: payload}, Checksum: 0x%x}",
+			get("f.SequenceNumber!1"), get("f.SystemID!1"), get("f.ComponentID!1"), id, get("f.Checksum!1"))
+	}
+	body := ""
+	if raw {
+		extra := get("crcExtra!1")
+		if isV2 {
+			body = fmt.Sprintf(`	got := f.GenerateChecksum(0x%x)
+	id := uint32(0x%x)
+	hdr := []byte{byte(len(payload)), f.IncompatibilityFlag, f.CompatibilityFlag, f.SequenceNumber, f.SystemID, f.ComponentID, byte(id), byte(id >> 8), byte(id >> 16)}
+	want := rpCRCStep(rpCRC(rpCRC(0xFFFF, hdr), payload), 0x%x)`, extra, id, extra)
+		} else {
+			body = fmt.Sprintf(`	got := f.GenerateChecksum(0x%x)
+	id := uint32(0x%x)
+	hdr := []byte{byte(len(payload)), f.SequenceNumber, f.SystemID, f.ComponentID, byte(id)}
+	want := rpCRCStep(rpCRC(rpCRC(0xFFFF, hdr), payload), 0x%x)`, extra, id, extra)
+		}
+		body += `
+	if got != want { fmt.Printf("REPLAY-CONFIRMED GenerateChecksum on %+v payload=%x: got %#x, spec checksum %#x\n", f, payload, got, want) } else { fmt.Println("REPLAY-NOT-REPRODUCED") }`
+	} else {
+		if isV2 {
+			body = `	buf := make([]byte, 512)
+	n, err := f.marshalTo(buf, payload)
+	want := rpV2Wire(f.IncompatibilityFlag, f.CompatibilityFlag, f.SequenceNumber, f.SystemID, f.ComponentID, f.Message.GetID(), payload, f.Checksum, f.SignatureLinkID, f.SignatureTimestamp, *f.Signature)`
+		} else {
+			body = `	buf := make([]byte, 512)
+	n, err := f.marshalTo(buf, payload)
+	want := rpV1Wire(f.SequenceNumber, f.SystemID, f.ComponentID, f.Message.GetID(), payload, f.Checksum)
+	if f.Message.GetID() > 255 { if err == nil { fmt.Println("REPLAY-CONFIRMED v1 id > 255 not refused") } else { fmt.Println("REPLAY-NOT-REPRODUCED") }; return }`
+		}
+		body += `
+	if err != nil || string(buf[:n]) != string(want) { fmt.Printf("REPLAY-CONFIRMED marshalTo on %+v payload=%x: emitted %x (err %v), spec layout %x\n", f, payload, buf[:n], err, want) } else { fmt.Println("REPLAY-NOT-REPRODUCED") }`
+	}
+	test := fmt.Sprintf(`package frame
+
+import ("fmt"; "testing"; "github.com/bluenviron/gomavlib/v3/pkg/message")
+
+func TestGovcReplay(t *testing.T) {
+	payload := %s
+	f := %s
+%s
+}
+`, goBytes(payload), frameLit, body)
+	return c.runReplayTest("pkg/frame", map[string]string{"oracle.go": oracle, "test.go": test}, "TestGovcReplay")
+}
+
+// replayStream: the bytes of the ghost stream from the model position on, fed to the real reader without key and dialect.
+func (c *checkCtx) replayStream(ns *NameSummary, v *Verdict, m map[string]uint64, oracle string) string {
+	if _, isnil, ok := findKey(m, "InKey.isnil!1"); ok && isnil == 0 && strings.Contains(ns.Func, "Read") {
+		return "replay skipped: the model uses a signing key (SHA-256 is uninterpreted in the proof, the model's digest bytes are not real)"
+	}
+	if _, isnil, ok := findKey(m, "DialectRW.isnil!1"); ok && isnil == 0 && strings.Contains(ns.Func, "Read") {
+		return "replay skipped: the model uses a dialect (the dialect table is uninterpreted in the proof)"
+	}
+	k, pos, ok := findKey(m, ".pos!1")
+	if !ok {
+		return ""
+	}
+	base := strings.TrimSuffix(k, ".pos!1")
+	_, avail, _ := findKey(m, ".avail!1")
+	arr := base + ".stream!1"
+	n := int(avail - pos)
+	if n < 0 {
+		return ""
+	}
+	if n > 400 {
+		n = 400
+	}
+	stream := modelBytes(v, arr, pos, n)
+	if stream == nil && n > 0 {
+		return "replay skipped: could not read the stream bytes from the model"
+	}
+	mode := "read"
+	if strings.Contains(ns.Func, "unmarshal") {
+		mode = "unmarshal-v1"
+		if strings.Contains(ns.Func, "V2") {
+			mode = "unmarshal-v2"
+		}
+	}
+	test := fmt.Sprintf(`package frame
+
+import ("bufio"; "fmt"; "io"; "testing"; "errors"; "github.com/bluenviron/gomavlib/v3/pkg/message")
+
+// rpChunked delivers the stream in the given chunk sizes (the last size repeats)
+type rpChunked struct { data []byte; sizes []int; i int }
+func (c *rpChunked) Read(p []byte) (int, error) {
+	if len(c.data) == 0 { return 0, io.EOF }
+	n := c.sizes[len(c.sizes)-1]
+	if c.i < len(c.sizes) { n = c.sizes[c.i] }
+	c.i++
+	if n > len(c.data) { n = len(c.data) }
+	if n > len(p) { n = len(p) }
+	copy(p, c.data[:n])
+	c.data = c.data[n:]
+	return n, nil
+}
+
+func TestGovcReplay(t *testing.T) {
+	stream := %s
+	mode := %q
+	// the proof abstracts from how the transport chunks the bytes: try the whole stream, one byte at a time, and every single split point
+	chunkings := [][]int{{1 << 20}, {1}}
+	for k := 1; k < len(stream) && k < 320; k++ { chunkings = append(chunkings, []int{k, 1 << 20}) }
+	for _, ch := range chunkings {
+		if rpOnce(stream, mode, ch) { return }
+	}
+	fmt.Println("REPLAY-NOT-REPRODUCED")
+}
+
+func rpOnce(stream []byte, mode string, chunks []int) (confirmed bool) {
+	defer func() { if e := recover(); e != nil { fmt.Printf("REPLAY-CONFIRMED panic on stream %%x (chunks %%v): %%v\n", stream, chunks, e); confirmed = true } }()
+	src := &rpChunked{data: append([]byte{}, stream...), sizes: chunks}
+	if mode != "read" {
+		// unmarshal is entered after the magic byte: prepend it for the mirror
+		magic := byte(0xFE); if mode == "unmarshal-v2" { magic = 0xFD }
+		full := append([]byte{magic}, stream...)
+		br := bufio.NewReaderSize(src, 512)
+		var err error
+		var fv Frame
+		if mode == "unmarshal-v2" { f := &V2Frame{}; err = f.unmarshal(br); fv = f } else { f := &V1Frame{}; err = f.unmarshal(br); fv = f }
+		size := rpFrameSize(full)
+		switch {
+		case (err == nil) != (size >= 0):
+			fmt.Printf("REPLAY-CONFIRMED unmarshal on %%x (chunks %%v): err=%%v but the spec says complete=%%v\n", stream, chunks, err, size >= 0)
+			return true
+		case err == nil && !rpSameFrame(fv, full[:size]):
+			fmt.Printf("REPLAY-CONFIRMED unmarshal on %%x (chunks %%v): parsed frame %%+v re-encodes differently from the bytes consumed\n", stream, chunks, fv)
+			return true
+		}
+		return false
+	}
+	r := &Reader{ByteReader: src}
+	r.Initialize()
+	fr, err := r.Read()
+	var re ReadError
+	isParse := errors.As(err, &re)
+	size := rpFrameSize(stream)
+	switch {
+	case len(stream) == 0:
+		if fr != nil || err == nil || isParse { fmt.Printf("REPLAY-CONFIRMED empty stream: fr=%%v err=%%v\n", fr, err); return true }
+	case size >= 0:
+		if fr == nil || err != nil || !rpSameFrame(fr, stream[:size]) { fmt.Printf("REPLAY-CONFIRMED complete frame %%x (chunks %%v) not returned as parsed: fr=%%+v err=%%v\n", stream[:size], chunks, fr, err); return true }
+	default:
+		if fr != nil || !isParse { fmt.Printf("REPLAY-CONFIRMED no complete frame at the start of %%x (chunks %%v) but fr=%%v err=%%v\n", stream, chunks, fr, err); return true }
+	}
+	return false
+}
+
+// rpSameFrame: the frame re-encoded by the mirror equals the wire bytes
+func rpSameFrame(fr Frame, wire []byte) bool {
+	raw, ok := fr.GetMessage().(*message.MessageRaw)
+	if !ok { return false }
+	var enc []byte
+	switch f := fr.(type) {
+	case *V1Frame:
+		enc = rpV1Wire(f.SequenceNumber, f.SystemID, f.ComponentID, raw.ID, raw.Payload, f.Checksum)
+	case *V2Frame:
+		var sig [6]byte
+		if f.Signature != nil { sig = *f.Signature }
+		enc = rpV2Wire(f.IncompatibilityFlag, f.CompatibilityFlag, f.SequenceNumber, f.SystemID, f.ComponentID, raw.ID, raw.Payload, f.Checksum, f.SignatureLinkID, f.SignatureTimestamp, sig)
+	}
+	return string(enc) == string(wire)
+}
+`, goBytes(stream), mode)
+	return c.runReplayTest("pkg/frame", map[string]string{"oracle.go": oracle, "test.go": test}, "TestGovcReplay")
 }
 
 type StandinConf struct {
